@@ -270,6 +270,11 @@ def c03_loader_checks(repo: Repo, tier: str, res: CheckResult, seed: int, prop: 
             raise AnalysisError(f"cannot audit emitted loader {prog.ident}: {msg} (line {line})")
         move = rec.get("extra_move")
         targets = move.split(":")[1].split(",") if move and move.startswith("targets:") else []
+        for pth, dec, line in S.absence:
+            if dec != "key-missing":
+                res.add(_gen_finding(prop, "TV.absence-decision", prog, line, "absence decided by " + dec.split(":")[0],
+                                     f"absence of the key at {list(pth) if pth else pth} is decided by `{dec}`, not by a missing-key "
+                                     "test: a present value is replaced by the default"))
         # (1) every field is read from its crown path, once
         by_field: Dict[str, List[FieldRead]] = {}
         for r in S.reads:
@@ -913,6 +918,7 @@ def _loader_fingerprint(S: LoaderSummary) -> Dict[str, Any]:
         "links": sorted((a, repr(k), c, cond) for a, k, c, cond, _ in S.extra_links),
         "len": sorted((a, b, c) for a, b, c, _ in S.len_checks),
         "type_checks": sorted(set((a, b) for a, b, _ in S.type_checks)),
+        "absence": sorted({(repr(p), d) for p, d, _ in S.absence}),
         "ctor": norm(call) if call is not None else None,
         "defaults": {k: sorted(set(v)) for k, v in sorted(S.defaults.items())},
     }
@@ -931,6 +937,32 @@ def c06_checks(repo: Repo, tier: str, res: CheckResult, seed: int) -> None:
         fp = {"tree": sorted((repr(p), e[0], repr(e[1]), e[2]) for p, e in S.tree.items()), "return": S.return_expr,
               "extra": S.extra_source, "sources": sorted((k, v[0], v[1], v[3]) for k, v in S.field_sources.items())}
         groups.setdefault(key, {})[r["debug_trail"]] = (prog, fp)
+    from . import swallow as _sw
+    from .genaudit import access_try_scopes
+    n_sw = 0
+    for kind in ("loader", "dumper"):
+        for prog, S in audited(repo, tier, seed, kind):
+            sw = _sw.analyse(prog.fn)
+            if sw.handlers_seen:
+                n_sw += 1
+            for node, hline, k in sw.findings:
+                res.add(_gen_finding("C06", "SWALLOW.generated-unexpected-error-then-success", prog, hline,
+                                     "except Exception then normal completion",
+                                     f"after the handler at emitted line {hline} caught an unexpected exception the program can "
+                                     f"still {'return' if k == 'return' else 'end'} normally (line {getattr(node, 'lineno', 0)})"))
+            for hs, callee, line in access_try_scopes(prog.fn):
+                res.add(_gen_finding("C06", "SIB.generated-access-try-scope", prog, line, f"{callee.split('_')[0]} call under except {hs}",
+                                     f"`{callee}(...)` runs inside the try whose `except {hs}` means 'field is absent': an "
+                                     f"{hs} raised by the field {kind} itself is taken for absence in this mode (field silently "
+                                     "skipped or defaulted) while the other modes propagate it"))
+            if kind == "loader":
+                for pth, dec, line in S.absence:
+                    if dec != "key-missing":
+                        res.add(_gen_finding("C06", "SIB.generated-absence-decision", prog, line, "absence decided by " + dec.split(":")[0],
+                                             f"whether the key at {list(pth) if pth else pth} is absent is decided by `{dec}` "
+                                             "instead of a missing-key test (sentinel identity / KeyError): a present value equal "
+                                             "to the fallback is treated as absent in this mode only"))
+    res.count("SWALLOW.generated-programs-with-broad-handler", n_sw, 100)
     n = 0
     for key, modes in groups.items():
         if len(modes) < 2:
